@@ -74,6 +74,10 @@ func (a *Arguments) Get(argumentIndex int) reflect.Value {
 		e := a.args.Exprs[argumentIndex]
 		switch e.Type() {
 		case NodeUnderscore:
+			if a.pipedVal == nil {
+				// '_' without a piped value
+				return reflect.Value{}
+			}
 			return *a.pipedVal
 		default:
 			return a.runtime.evalPrimaryExpressionGroup(e)
